@@ -46,7 +46,7 @@ func absServer(server string) []string {
 	switch server {
 	case "http://h.example/base":
 		return []string{"http://h.example"}
-	case "{scheme}://h.example/base":
+	case "{scheme}://h.example/base", "abs:https+http":
 		return []string{"https://h.example", "http://h.example"}
 	case "http://{env}.example/base":
 		return []string{"http://prod.example", "http://stage.example", "http://dev.example"}
@@ -146,6 +146,9 @@ func build(c Case) (*openapi3.T, error) {
 	case "/api/{ver}/{area}":
 		// two server variables that do not occur in alphabetical order
 		raw["servers"] = []any{M{"url": "/api/{ver}/{area}", "variables": M{"ver": M{"default": "v2"}, "area": M{"default": "eu"}}}}
+	case "abs:https+http":
+		// two servers that differ in their scheme only; the second one with a trailing slash
+		raw["servers"] = []any{M{"url": "https://h.example/base"}, M{"url": "http://h.example/base/"}}
 	case "{scheme}://h.example/base":
 		// the default is listed first in the enum, the other value last
 		raw["servers"] = []any{M{"url": c.Server, "variables": M{"scheme": M{"default": "https", "enum": []any{"https", "http"}}}}}
@@ -422,7 +425,7 @@ func check(c Case) (o h.Outcome) {
 
 var tplPool = []string{"/a", "/a/{x}", "/a/b", "/{x}", "/{x}/b", "/a/{x}/b", "/a/{x}/{y}", "/{x}/{y}", "/b/{y}", "/b", "/a/b/c", "/a/{x}/c", "/{x}/b/{y}", "/a/b/{y}", "/a/p-{x}", "/a/p-b", "/a/{x}.json", "/a/b.json", "/a/{x}.{y}", "/{x}-{y}/b", "/a/{w}/d", "/{v}/d/{y}"}
 var methodSets = [][]string{{"GET"}, {"POST"}, {"GET", "POST"}, {"GET", "PUT", "DELETE"}}
-var servers = []string{"none", "/v1", "/", "/V2", "/b%20c", "/api/{ver}", "http://h.example/base", "{scheme}://h.example/base", "http://{env}.example/base", "multi:/v1,/v10", "multi:/v10,/v1", "first:/one,/two", "/api/{ver}/{area}"}
+var servers = []string{"none", "/v1", "/", "/V2", "/b%20c", "abs:https+http", "/api/{ver}", "http://h.example/base", "{scheme}://h.example/base", "http://{env}.example/base", "multi:/v1,/v10", "multi:/v10,/v1", "first:/one,/two", "/api/{ver}/{area}"}
 var values = []string{"1", "abc", "a.b", "x-y_z~", "b", "a", "Xy9", "B"}
 
 func baseOf(server string) string {
